@@ -54,6 +54,18 @@
 // (held 6 s in the dial-data phase), lets 1-2 further requests fail at a drawn stage (the four reset stages,
 // dial-back reset / unanswered, abort in the dial-data phase), then opens limit+1 new requests.
 //
+// Warm-up and cold start. By default every client connects to S and lets identify complete before its first request
+// (loss-free in the QUIC world), as a long-running client would. The LAST draw of the workload tape makes a third of
+// the runs cold for all clients and a sixth for the even-numbered ones: the first request of a cold client is its first
+// contact with S — connection set-up, identify, non-lazy protocol negotiation, the NAT mapping and UDP loss all happen
+// under the request (or under several concurrent first requests), and it may start at virtual time 0. No oracle depends
+// on the warm-up. The other first uses were cold already: no request is sent before the experiment (the limiter's first
+// window and the server's first request are drawn ones), the dialer host has no contact with anybody before its first
+// dial-back (its first dial may be refused, blackholed, answered by the wrong peer, reset by the dial-back handler), and
+// its UDP black-hole counter is fresh in an eighth of the QUIC-world runs. The harness calls nothing on the code under
+// test to observe it during a run (responses, simnet's dial log and the UDP filter are the observations; the dialer's
+// peerstore is read once, after the last request and 40 virtual seconds, with pstoremem's read-only Addrs).
+//
 // Dial-data bytes are counted ON THE WIRE of the raw client: a well-formed DialDataResponse frame is credited with
 // its data length, every other frame (not protobuf, hollow) with the number of bytes really written.
 //
@@ -770,6 +782,16 @@ func run(t *testing.T, tape *simrt.Tape) *common.Outcome {
 		}
 	}
 
+	// Cold start (drawn LAST, so that earlier tapes keep their meaning; 0 = warm): 0 = every client connects to S and
+	// identify completes before the first request, without UDP loss (the requests of a long-running client); 1 = no
+	// client does: the first request of each client IS its first contact with S (connection set-up, identify, protocol
+	// negotiation and — in the QUIC world — UDP loss and the creation of the NAT mapping all happen under the request,
+	// possibly under several concurrent requests), and the first request may start at virtual time 0; 2 = only the
+	// clients with an odd index are warmed up. No oracle needs the warm-up.
+	cold := g.Weighted(3, 2, 1)
+	if cold != 0 {
+		o.Logf("cold start: mode %d (1 = no client is connected to S before its first request, 2 = only odd clients are)", cold)
+	}
 	// crypto/rand (QUIC connection ids, TLS randoms, certificate keys) is a function of the run, too
 	restore := simrand.Install(uint64(seed) + 7)
 	defer restore()
@@ -920,12 +942,19 @@ func run(t *testing.T, tape *simrt.Tape) *common.Outcome {
 		}
 		// warm-up: every client connects to S (over TCP, or over QUIC in the QUIC world if drawn so) and identify
 		// completes, so that the requests themselves start from an established connection (as a real client's would)
+		if cold == 1 {
+			w.warm = false // UDP loss from the first datagram on
+		}
 		for _, c := range cl {
 			sAddr := w.S.Addr
 			if c.viaQUIC {
 				sAddr = w.S.QAddr
 			}
 			c.node.PS.AddAddrs(w.S.ID, []ma.Multiaddr{sAddr}, peerstore.PermanentAddrTTL)
+			if cold == 1 || (cold == 2 && c.idx%2 == 0) {
+				o.Probe("cold-client")
+				continue
+			}
 			ctx, cancel := contextTimeout(30 * time.Second)
 			err := c.node.Host.Connect(ctx, peer.AddrInfo{ID: w.S.ID, Addrs: []ma.Multiaddr{sAddr}})
 			cancel()
@@ -934,9 +963,11 @@ func run(t *testing.T, tape *simrt.Tape) *common.Outcome {
 				return
 			}
 		}
-		simrt.WaitIdle()
-		simrt.TimeSleep(time.Second)
-		simrt.WaitIdle()
+		if cold != 1 {
+			simrt.WaitIdle()
+			simrt.TimeSleep(time.Second)
+			simrt.WaitIdle()
+		}
 		warmDials := len(n.Dials())
 		w.warm = false
 
